@@ -294,6 +294,9 @@ def gate_rows(out, seed, per_class, coverage=True):
 
 
 def run(out, tier, seed):
+    if os.environ.get("C08_PART") == "e2e":      # machinery tests only: the end-to-end rows alone
+        end_to_end(out, seed)
+        return
     per_class = 2 if tier == "quick" else 40
     rows, dom, extra = gate_rows(out, seed, per_class)
     # where inside the identifier the cursor is does not enter the decision (assumption of the specification): quick draws one
